@@ -224,12 +224,63 @@ about call sites use the regenerated table, this one documents what the harness 
 def reviewedLevels : List (Level × Bool) :=
   [(.trace, false), (.debug, false), (.warn, false), (.error, true), (.info, true), (.print, true), (.fatal, true)]
 
+/-! ### where the text of an error comes from -/
+
+/-- what the text of an error can hold -/
+inductive Cls
+  | clean        -- its text never names a client
+  | structured   -- it names a client at most inside `*net.OpError` values reachable by `Unwrap` (what package
+                 -- net returns for I/O on a client connection): `generalizeErr` removes that
+  | leaky       -- a client address may sit in text the sanitiser cannot look into
+deriving Repr, DecidableEq
+
+def Cls.max : Cls → Cls → Cls
+  | .leaky, _ => .leaky
+  | _, .leaky => .leaky
+  | .structured, _ => .structured
+  | _, .structured => .structured
+  | .clean, .clean => .clean
+
+/-- formatting an error into a new one with a verb other than `%w` (or through `.Error()`): its text
+becomes opaque text of the new error — harmless only when there was no client address in it -/
+def Cls.flat : Cls → Cls
+  | .clean => .clean
+  | _ => .leaky
+
+/-- what `generalizeErr` makes of it: operation errors lose their endpoints, opaque text passes unchanged -/
+def Cls.gen : Cls → Cls
+  | .leaky => .leaky
+  | _ => .clean
+
+/-- the call an error value came from.  `fns`: the functions of this repository the call can reach (indices
+into the regenerated summary table `CJ.Gen.errFns`); `ext`: the call can (also) reach code outside the
+repository — the receiver's type is unknown, or nothing in the repository has that name — so the call is
+judged by the reviewed table `leafClasses` as well. -/
+structure Origin where
+  text : String
+  fns : List Nat
+  ext : Bool
+deriving Repr, DecidableEq
+
+/-- one source of the text of an error value -/
+inductive Src
+  | err (flat gen : Bool) (o : Origin)   -- the error of a call: passed through `generalizeErr` first (`gen`),
+                                         -- then returned as it is / wrapped with `%w`, or flattened (`flat`)
+  | tainted (what : String)              -- a value derived from a client address is formatted into a
+                                         -- constructed error (data flow found by the extractor)
+deriving Repr, DecidableEq
+
+/-- summary of a function of the repository: everything its returned error can be made of -/
+structure ErrFn where
+  key : String
+  srcs : List Src
+deriving Repr, DecidableEq
+
 /-- one argument of a logger call, as the extractor classifies it -/
 inductive Arg
   | lit                        -- a literal
   | num                        -- a number built from literals, counters (atomic loads), lengths, arithmetic
-  | genErr                     -- an error value that went through `generalizeErr`
-  | rawErr (origin : String)   -- an error value printed as returned by the call `origin`
+  | err (s : Src)              -- an error value, with where it came from
   | typeOf (src : String)      -- operand of a `%T` verb: only its type is printed
   | expr (src : String)        -- anything else, by source text
 deriving Repr, DecidableEq
@@ -243,36 +294,167 @@ structure Site where
   args : List Arg
 deriving Repr, DecidableEq
 
-/-- Reviewed: calls whose error results never carry a client address (what each returns is noted).
-An origin that is not listed makes the call-site theorem fail — that is the alarm for a raw error logged at a
-new place. -/
-def safeOrigins : List String := [
-  -- cmd/application/main.go: start-up and reload, before/independent of any connection
-  "cj.ParseConfig", "log.ParseLevel", "dtls.NewTransport", "strconv.ParseBool", "conf.ParsePrivateKey",
-  "conf.ParseZMQPrivateKey", "prefix.New", "prefix.Default", "regManager.AddTransport", "cj.NewZMQIngest",
+/-- Reviewed: calls that leave the repository (or whose receiver is of unknown type), with what their errors
+can hold.  A bare call text is a call whose error a logger prints; `pkg.Func: call` is a call inside a
+function of the repository whose error reaches a logger through return values; a trailing ⚑ marks a call
+that is handed a client-derived argument (parsers and resolvers repeat their input in their errors).
+A call that is not listed counts as `leaky`: a raw or sanitised error from a new place fails the
+call-site theorem until it is reviewed here. -/
+def leafClasses : List (String × Cls) := [
+  -- ── errors a logger prints as they are ────────────────────────────────────────────────────────
+  -- cmd/application/main.go: start-up, before/independent of any connection
+  ("strconv.ParseBool", .clean),
   -- conns.go: listener errors carry the listening address only (`OpError{Source: nil, Addr: laddr}`)
-  "net.ListenTCP", "ln.AcceptTCP",
+  ("net.ListenTCP", .clean), ("ln.AcceptTCP", .clean),
   -- bare errno values from socket options
-  "getOriginalDst", "syscall.SetNonblock",
+  ("syscall.SetNonblock", .clean), ("application.getOriginalDst: syscall.GetsockoptIPv6MTUInfo", .clean),
   -- `SetDeadline` failures are `OpError{Op: "set", Source: nil, Addr: laddr}` (local address only,
-  -- `deadline_error_no_client`) or a bare errno (obfs4: ENOTSUP)
-  "clientConn.SetDeadline", "wrapped.SetDeadline",
-  -- GeoIP lookups: pkg/station/geoip takes the looked-up address out of the reader's error text (maxminddb
-  -- repeats it for an IPv6 lookup in an IPv4-only database); exercised by the harness with such a database
-  "regManager.GeoIP.CC", "regManager.GeoIP.ASN", "regManager.GeoIPDatabase().CC", "regManager.GeoIPDatabase().ASN",
-  -- proxies.go: the PROXY header is written to the covert connection (station and covert endpoints); the
-  -- client address is parsed from `RemoteAddr().String()`, which is host:port for TCP and UDP peers
-  "writePROXYHeader",
-  -- registration.go / registration_ingest.go: configuration, protobuf, registry and HTTP-share errors
-  "liveness.New", "phantoms.NewPhantomIPSelector", "geoip.New",
-  "regManager.registeredDecoys.register", "regManager.registeredDecoys.Register",
-  "rm.parseRegMessage", "rm.ValidateRegistration", "rm.TrackRegistration", "proto.Marshal", "proto.Unmarshal",
-  "executeHTTPRequest", "rm.NewRegistrationC2SWrapper", "rm.PhantomIsLive",
+  -- `deadline_error_no_client`) or a bare errno (obfs4: ENOTSUP); the DTLS connection hands the call down to
+  -- its UDP socket
+  ("clientConn.SetDeadline", .clean), ("wrapped.SetDeadline", .clean),
+  ("dtls.SCTPConn.SetDeadline: s.conn.SetDeadline", .clean),
+  -- GeoIP lookups: every implementation of geoip.Database is in pkg/station/geoip (summaries below: the
+  -- reader's error goes through `withoutAddr`, which takes the looked-up address out of the text — maxminddb
+  -- repeats it for an IPv6 lookup in an IPv4-only database; exercised by the harness with such a database)
+  ("regManager.GeoIPDatabase().CC ⚑", .clean), ("regManager.GeoIPDatabase().ASN ⚑", .clean),
+  ("lib.RegistrationManager.NewRegistrationC2SWrapper: rm.GeoIPDatabase().CC ⚑", .clean),
+  ("lib.RegistrationManager.NewRegistrationC2SWrapper: rm.GeoIPDatabase().ASN ⚑", .clean),
+  -- the error handed to the sanitiser `withoutAddr` is the reader's (the sanitiser is reviewed below)
+  ("geoip.withoutAddr: param err", .leaky),
+  -- proxies.go, writePROXYHeader: the header is written to the covert connection (station and covert
+  -- endpoints; a write error never repeats the data written); the client address is parsed from
+  -- `RemoteAddr().String()`, which is host:port for TCP and UDP peers, so SplitHostPort does not fail
+  ("lib.writePROXYHeader: conn.Write ⚑", .clean), ("lib.writePROXYHeader: net.SplitHostPort ⚑", .clean),
+  -- registration.go / registration_ingest.go: protobuf, registry and HTTP-share errors
+  ("proto.Marshal", .clean), ("proto.Unmarshal", .clean),
+  ("lib.RegistrationManager.parseRegMessage: proto.Unmarshal", .clean),
+  ("regManager.registeredDecoys.register", .clean),
+  ("lib.RegistrationManager.TrackRegistration: regManager.registeredDecoys.Track", .clean),
+  ("lib.executeHTTPRequest: http.Post", .clean),      -- the registration API of a peer station (configured URL)
+  -- phantom selection, transport parameters and ports: arithmetic on subnets, protobuf decoding, HKDF streams
+  ("lib.RegistrationManager.NewRegistration: rm.Selector().Select", .clean),
+  ("lib.RegistrationManager.getPhantomDstPort: transport.GetDstPort", .clean),
+  ("lib.RegistrationManager.getTransportParams: transport.ParseParams", .clean),
+  ("lib.mockTransport.ParseParams: anypb.UnmarshalTo", .clean),
+  ("transports.UnmarshalAnypbTo: anypb.New", .clean), ("transports.UnmarshalAnypbTo: anypb.UnmarshalTo", .clean),
+  ("core.GenSharedKeys: cjHkdf.Read", .clean), ("phantoms.SelectAddrFromSubnet: rng.Read", .clean),
+  ("phantoms.SubnetConfig.getSubnetsVarint: wr.NewChooser", .clean), ("phantoms.getSubnetsHkdf: rand.Int", .clean),
+  ("phantoms.selectPhantomImplHkdf: rand.Int", .clean), ("phantoms.parseSubnet: net.ParseCIDR", .clean),
+  -- configuration, keys, databases, certificates: files and values of the station's own configuration
+  ("lib.ParseConfig: toml.DecodeFile", .clean), ("lib.ParseConfig: c.ParseBlocklists", .clean),
+  ("lib.RegConfig.ParseBlocklists: net.ParseCIDR", .clean), ("lib.RegConfig.ParseBlocklists: regexp.Compile", .clean),
+  ("lib.Config.ParsePrivateKey: os.Stat", .clean), ("lib.Config.ParsePrivateKey: os.ReadDir", .clean),
+  ("lib.loadPrivateKey: os.ReadFile", .clean), ("lib.NewZMQIngest: zmq.AuthCurvePublic", .clean),
+  ("liveness.CachedLivenessTester.Init: time.ParseDuration", .clean),
+  ("phantoms.SubnetsFromTomlFile: toml.LoadFile", .clean), ("phantoms.SubnetsFromTomlFile: tree.Unmarshal", .clean),
+  ("phantoms.SubnetsFromTomlFile: strconv.Atoi", .clean), ("geoip.maxMindDatabase.init: geoip2.Open", .clean),
+  ("dtls.Listen: lc.Listen", .clean),                   -- the station's own UDP listening address
+  ("dtls.NewTransport: buildDnat", .clean),             -- opens the tun device
+  ("dtls.getPrivkey: keygen.ECDSALegacy", .clean), ("dtls.getX509Tpl: rand.Int", .clean),
+  ("dtls.getX509Tpl: io.ReadFull", .clean), ("dtls.newCertificate: x509.CreateCertificate", .clean),
+  -- liveness probes dial the *phantom* address
+  ("liveness.CachedLivenessTester.PhantomIsLive: blt.phantomIsLive", .clean),
+  ("liveness.UncachedLivenessTester.PhantomIsLive: blt.phantomIsLive", .clean),
+  ("lib.RegistrationManager.PhantomIsLive: regManager.LivenessTester.PhantomIsLive", .clean),
+  ("regManager.LivenessTester.PhantomIsLive", .clean),
   -- zmq_proxy.go: the ZMQ sockets connect the station to its detector and to the registrars (configured
   -- endpoints); libzmq errors are errno texts
-  "zmq.NewSocket", "sub.Connect", "sub.SetSubscribe", "sub.RecvBytes", "pubSock.Bind", "pubSock.SendBytes",
-  "sock.SetHeartbeatIvl", "sock.SetHeartbeatTimeout", "sock.ClientAuthCurve", "sock.SetSubscribe", "sock.Connect"
+  ("zmq.NewSocket", .clean), ("sub.Connect", .clean), ("sub.SetSubscribe", .clean), ("sub.RecvBytes", .clean),
+  ("pubSock.Bind", .clean), ("pubSock.SendBytes", .clean), ("sock.SetHeartbeatIvl", .clean),
+  ("sock.SetHeartbeatTimeout", .clean), ("sock.ClientAuthCurve", .clean), ("sock.SetSubscribe", .clean),
+  ("sock.Connect", .clean),
+  -- ── errors that are printed or stored only after `generalizeErr` ──────────────────────────────
+  -- I/O on the client connection (package net: `*net.OpError` with both endpoints) and on what wraps it
+  ("clientConn.File", .structured), ("clientConn.Read", .structured), ("io.Copy", .structured),
+  ("cTCP.SetLinger", .structured), ("src.Read", .structured), ("dst.Write", .structured), ("c.Close", .structured),
+  ("net.Dial", .structured), ("t.WrapConnection", .structured), ("=io.ErrShortWrite", .clean),
+  -- the connecting transport's Connect: its own failures, the context's error, and the dial error of the
+  -- network stack towards the client (`dial udp <station>-><client>: …`): structured as package net returns it —
+  -- the DTLS transport flattens it (`Cls.flat`), which is why what Connect returns is leaky and may only be
+  -- counted, never printed, sanitised or not
+  ("dtls.Transport.Connect: ctx.Err", .clean), ("dtls.Transport.Connect: reuseport.Dial ⚑", .structured),
+  ("dtls.SCTPConn.Read: s.stream.Read", .structured), ("dtls.SCTPConn.Read: =s.readErr", .structured),
+  ("dtls.hbConn.Read: =net.ErrClosed", .clean), ("dtls.hbConn.Read: =readBytes.err", .structured),
+  ("dtls.Not1Reader.Read: n1r.r.Read", .structured), ("transports.PrefixConn.Read: pc.r.Read", .structured)
 ]
+
+/-- Reviewed: calls whose receiver is an interface value that is known not to hold a type of this repository,
+although methods of that name exist in it (the extractor resolves by name): the random stream an address is
+drawn from (an HKDF / DRBG reader, not a connection) and the covert connection `net.Dial` returned. -/
+def notRepo : List String := [
+  "phantoms.SelectAddrFromSubnet: rng.Read", "lib.writePROXYHeader: conn.Write ⚑"
+]
+
+/-- Reviewed sanitisers: functions whose returned error is free of the address they are given although they
+format it (`withoutAddr` replaces the looked-up address in the reader's text by "_"; the harness runs the
+GeoIP lookups on IPv4-only databases, where the reader's error repeats the address). -/
+def reviewedSanitizers : List String := ["pkg/station/geoip.withoutAddr"]
+
+def lookupCls (s : String) : List (String × Cls) → Option Cls
+  | [] => none
+  | (k, v) :: rest => if k = s then some v else lookupCls s rest
+
+def leafCls (s : String) : Cls := (lookupCls s leafClasses).getD .leaky
+
+/-! The reviewed tables are keyed by text; they are consulted once per source (`Src.resolve`), the class
+computation then runs on numbers only. -/
+
+/-- a source with the reviewed tables already consulted -/
+structure RSrc where
+  tainted : Bool
+  flat : Bool
+  gen : Bool
+  fns : List Nat     -- summarised functions the call can reach
+  leaf : Cls         -- what the reviewed table says about the call (`clean` when it stays inside the repository)
+
+structure RFn where
+  key : String
+  srcs : List RSrc
+
+def Origin.fnsR (o : Origin) : List Nat := if notRepo.contains o.text then [] else o.fns
+
+def Origin.leafR (o : Origin) : Cls := if o.ext || o.fns.isEmpty then leafCls o.text else .clean
+
+def Src.resolve : Src → RSrc
+  | .tainted _ => ⟨true, false, false, [], .leaky⟩
+  | .err flat gen o => ⟨false, flat, gen, o.fnsR, o.leafR⟩
+
+def ErrFn.resolve (f : ErrFn) : RFn := ⟨f.key, f.srcs.map Src.resolve⟩
+
+/-- class contributed by the summarised functions a call can reach, given their classes (a function's
+reference to itself adds nothing; a reference outside the table counts as leaky) -/
+def viaFns (known : List Cls) (self : Nat) (fns : List Nat) : Cls :=
+  fns.foldl (fun acc i => acc.max (if i = self then .clean else (known[i]?).getD .leaky)) Cls.clean
+
+def rsrcCls (known : List Cls) (self : Nat) (s : RSrc) : Cls :=
+  if s.tainted then .leaky else
+  let c := (viaFns known self s.fns).max s.leaf
+  let c := if s.gen then c.gen else c
+  if s.flat then c.flat else c
+
+/-- class of a summarised function: the worst of its sources, unless it is a reviewed sanitiser (the table is
+consulted only for functions that are not clean anyway) -/
+def rfnCls (known : List Cls) (self : Nat) (f : RFn) : Cls :=
+  match f.srcs.foldl (fun acc s => acc.max (rsrcCls known self s)) Cls.clean with
+  | .clean => .clean
+  | c => if reviewedSanitizers.contains f.key then .clean else c
+
+/-- class of what a call returns -/
+def originCls (known : List Cls) (self : Nat) (o : Origin) : Cls := (viaFns known self o.fnsR).max o.leafR
+
+def srcCls (known : List Cls) (self : Nat) (s : Src) : Cls := rsrcCls known self s.resolve
+
+/-- the class equations: entry `i` of `k` is the class computed for function `i` from `k` itself -/
+def checkFrom (k : List Cls) : Nat → List RFn → List Cls → Bool
+  | _, [], [] => true
+  | i, f :: fs, c :: cs => (rfnCls k i f == c) && checkFrom k (i + 1) fs cs
+  | _, _, _ => false
+
+/-- `k` solves the class equations of the table: every function's class is what its sources give, computed
+from the classes `k` assigns to the functions they reach.  The classes are a certificate (the extractor
+computes the least solution and writes it next to the summaries); the equations are monotone, so *every*
+solution lies above the least one and can only over-approximate what a function returns. -/
+def solves (r : List RFn) (k : List Cls) : Bool := checkFrom k 0 r k
 
 /-- Reviewed: every non-error expression that reaches a logger (or a logger prefix) in the covered
 directories, with the role of the address it renders (`none`: it renders no address).  A plain
@@ -296,6 +478,13 @@ def exprRoles : List (String × Option Role) := [
   ("tunStatsStr=json.Marshal(ts)", none), ("statsStr=json.Marshal(stats)", none), ("reg.String()", none),
   -- client-side library code (prefix transport's debug print): prefix id and session parameters
   ("s=param(debug)", none), ("t.Prefix", none), ("t.parameters", none), ("t.sessionParams", none),
+  -- what is stored in the string fields of the JSON summaries (`<field tunnelStats.X>` sinks): GeoIP country
+  -- code, names of the transport and the registrar, option strings of the transport
+  ("reg.regCC", none), ("reg.Transport.String()", none), ("reg.RegistrationSource.String()", none),
+  ("paramStrs=(*reg.TransportPtr).ParamStrings(reg.transportParams)", none),
+  ("expiredRegObj.regCC", none), ("expiredRegObj.Transport.String()", none),
+  ("expiredRegObj.RegistrationSource.String()", none),
+  ("reg.PhantomIp.String()", some .phantom), ("expiredReg.decoy", some .phantom),
   -- addresses that are not a client's
   ("listenAddr=&net.TCPAddr{IP: nil, Port: 41245, Zone: \"\"}", some .station), ("ln.Addr()", some .station),
   ("http.ListenAndServe(\"localhost:6060\", nil)", some .station),
@@ -313,9 +502,12 @@ def lookupRole (s : String) : List (String × Option Role) → Option (Option Ro
   | [] => none
   | (k, v) :: rest => if k = s then some v else lookupRole s rest
 
-def Arg.ok : Arg → Bool
-  | .lit | .num | .genErr | .typeOf _ => true
-  | .rawErr o => safeOrigins.contains o
+/-- a source at a call site (not inside a summarised function): no `self` -/
+def siteSrcCls (known : List Cls) (s : Src) : Cls := srcCls known known.length s
+
+def Arg.ok (known : List Cls) : Arg → Bool
+  | .lit | .num | .typeOf _ => true
+  | .err s => siteSrcCls known s == .clean
   | .expr s =>
     match lookupRole s exprRoles with
     | some (some .client) => false
@@ -326,34 +518,53 @@ def Arg.ok : Arg → Bool
 the raw read error; it is unreachable for connections that honour `io.Reader` (`nr ≤ len(buf)`). -/
 def exemptFormats : List String := ["unexpected read len error - up:%t (%dB): %s"]
 
-def Site.ok (tbl : List (Level × Bool)) (s : Site) : Bool :=
-  !emittedBy tbl s.level || exemptFormats.contains s.format || s.args.all Arg.ok
+def Site.ok (tbl : List (Level × Bool)) (known : List Cls) (s : Site) : Bool :=
+  !emittedBy tbl s.level || exemptFormats.contains s.format || s.args.all (Arg.ok known)
 
 /-! ### rendering of a call site in an environment -/
+
+/-- every opaque part of the error is free of *client* addresses (it may name the station, a phantom or a
+covert): the weaker form of `opaqueClean` that the call-site theorem needs -/
+def Err.opaqueNoClient : Err → Bool
+  | .syscallErr _ inner => inner.opaqueNoClient
+  | .opError _ _ _ _ inner => inner.opaqueNoClient
+  | .wrapped pre inner => noClient pre && inner.opaqueNoClient
+  | .other toks => noClient toks
+  | .netErr toks _ => noClient toks
+  | _ => true
+
+/-- an error value is within a class -/
+def Err.inCls : Cls → Err → Prop
+  | .clean, e => noClient e.text = true
+  | .structured, e => e.opaqueNoClient = true
+  | .leaky, _ => True
 
 /-- what the arguments of a call evaluate to -/
 structure Env where
   app : Bool                       -- which `generalizeErr` the file uses
-  err : Err                        -- the error value handed to `generalizeErr`
-  raw : String → Err               -- the error returned by each origin
-  exprToks : String → List Tok     -- rendering of every other expression
+  raw : Origin → Err               -- the error returned by each call
+  exprToks : String → List Tok     -- rendering of every other expression (and of client-derived values)
+
+/-- the text a source contributes to what is printed: flattening keeps the tokens (they become part of
+another error's text), `generalizeErr` is applied where the code applies it -/
+def srcText (env : Env) : Src → List Tok
+  | .tainted w => env.exprToks w
+  | .err _ gen o => if gen then generalizedText env.app (env.raw o) else (env.raw o).text
 
 def renderArg (env : Env) : Arg → List Tok
   | .lit => [.str "…"]
   | .num => [.str "0"]
-  | .genErr => generalizedText env.app env.err
-  | .rawErr o => (env.raw o).text
+  | .err s => srcText env s
   | .typeOf _ => [.str "T"]
   | .expr s => env.exprToks s
 
 def renderSite (env : Env) (s : Site) : List Tok := s.args.flatMap (renderArg env)
 
-/-- The environment respects the reviewed tables: listed origins return errors without client
-addresses, listed expressions render no client address unless they are listed as one; the error handed
-to `generalizeErr` names endpoints only through operation errors. -/
-structure Env.Ok (env : Env) : Prop where
-  err_clean : env.err.opaqueClean = true
-  raw_ok : ∀ o, o ∈ safeOrigins → noClient (env.raw o).text = true
+/-- The environment respects the tables: what a call returns is within the class computed for it (from the
+reviewed leaves and the regenerated summaries), listed expressions render no client address unless they are
+listed as one. -/
+structure Env.Ok (known : List Cls) (env : Env) : Prop where
+  raw_ok : ∀ o, (env.raw o).inCls (originCls known known.length o)
   expr_ok : ∀ s r, lookupRole s exprRoles = some r → r ≠ some Role.client → noClient (env.exprToks s) = true
 
 /-! ### reviewed facts about the switch and the summaries (checked against regenerated tables) -/
